@@ -4,7 +4,9 @@ ttl-heavy histories (zero/negative/huge ttl, many items on one expiry instant,
 more than one 100-row page of expired items, clock steps landing before, on and
 after expiry instants) over every operation that reads or writes expiry,
 compared with DC.Model.Cache; judged by the reference dictionary, which leaves
-the instant now == expire_time open."""
+the instant now == expire_time open.  A systematic grid (every expiry-reading
+call x before / on / after the expiry instant x inline / file-backed x
+cull_limit) runs first."""
 import gen
 from props import base, refdict
 
@@ -37,6 +39,34 @@ def mass_expiry(rng, n, page_note=True):
     return {'cfg': cfg, 'ops': ops, 'state_every': 60}
 
 
+def expiry_grid():
+    """every expiry-reading call x the instant it is made (before / on / after the expiry time) x
+    inline / file-backed value x cull_limit {0, 10}: one item with ttl 6 stored at 1000, the call at
+    1000+gap, then the look-ups"""
+    calls = [
+        {'m': 'get', 'k': 'k', 'et': 1, 'tg': 1}, {'m': 'getitem', 'k': 'k'}, {'m': 'contains', 'k': 'k'},
+        {'m': 'touch', 'k': 'k', 'ttl': 50}, {'m': 'touch', 'k': 'k', 'ttl': None},
+        {'m': 'add', 'k': 'k', 'v': 'again', 'ttl': None, 'tag': None}, {'m': 'add', 'k': 'k', 'v': 'again', 'ttl': 2, 'tag': None},
+        {'m': 'incr', 'k': 'k', 'delta': 1, 'default': 0}, {'m': 'incr', 'k': 'k', 'delta': 1, 'default': None},
+        {'m': 'pop', 'k': 'k', 'et': 1}, {'m': 'delete', 'k': 'k'}, {'m': 'delitem', 'k': 'k'},
+        {'m': 'peekitem', 'last': 1, 'et': 1}, {'m': 'expire'}, {'m': 'cull'},
+        {'m': 'set', 'k': 'other', 'v': 1, 'ttl': None, 'tag': None}, {'m': 'len'}, {'m': 'iter'},
+    ]
+    hists = []
+    for call in calls:
+        for gap in (5, 6, 7, 600):
+            for v in (5, b'F' * 40):
+                for cull in (0, 10):
+                    ops = [{'m': 'set', 'now': 1000, 'k': 'k', 'v': v, 'ttl': 6, 'tag': 'old'},
+                           {'m': 'set', 'now': 1000, 'k': 'forever', 'v': 1, 'ttl': None, 'tag': None},
+                           dict(call, now=1000 + gap),
+                           {'m': 'get', 'now': 1000 + gap, 'k': 'k'}, {'m': 'contains', 'now': 1000 + gap, 'k': 'k'},
+                           {'m': 'get', 'now': 1000 + gap + 10 ** 9, 'k': 'forever'}, {'m': 'len', 'now': 1000 + gap + 10 ** 9}]
+                    hists.append({'cfg': {'mfs': 8, 'policy': 'lrs', 'cull': cull, 'stats': 0, 'proto': 5, 'disk': 'pickle',
+                                          'limN': 2 ** 30, 'limD': 1, 'tagidx': 0}, 'ops': ops, 'state_every': 1})
+    return hists
+
+
 def acceptor(hist, io):
     err = refdict.accept(hist, io, scope=SCOPE)
     if err:
@@ -53,7 +83,7 @@ def run(tier, seed, rng, known, replay):
     if replay:
         return base.replay_file(replay, 'C04', ('result', 'state'), acceptor)
     n_short, n_long, n_mass = (160, 16, 12) if tier == 'quick' else (2400, 200, 120)
-    hists = [ttl_history(rng, rng.choice([15, 40, 80])) for _ in range(n_short)]
+    hists = expiry_grid() + [ttl_history(rng, rng.choice([15, 40, 80])) for _ in range(n_short)]
     hists += [ttl_history(rng, 300) for _ in range(n_long)]
     hists += [mass_expiry(rng, rng.choice([101, 205, 260])) for _ in range(n_mass)]
     r = base.check_histories('C04', hists, ('result', 'state'), acceptor=acceptor, known=known)
